@@ -231,7 +231,7 @@ func runC13(r *core.Run) {
 	pool := images.Small()[:2+r.Intn(3, "pool-size")]
 	// candidate names: the default, plain ones, and one with a directory separator (legal: the flag
 	// is not validated and both back ends create parent directories)
-	cands := []string{"", "rc1", "rel-7/RC00", "rc2", "rc  two spaces"}[:2+r.Intn(4, "candidates")]
+	cands := []string{"", "rc1", "rel-7/RC00", "rc2", "rc  two spaces", "lib\xe9r\xe9-rc1"}[:2+r.Intn(5, "candidates")] // the last one: a legal file name that is not UTF-8
 	n := 2 + r.Intn(14, "runs")
 	if r.Tier != "thorough" && n > 10 {
 		n = 10
